@@ -772,7 +772,10 @@ fn tasks_run(seed: u64, run: u64, p: &mut Prng, menu: &[Box<dyn TyObj>]) -> RunS
         small[p.below(small.len() as u64) as usize]
     };
     let hunt_kind = p.weighted(&[6, 2, 2]);
-    let n_tasks = if p.chance(1, 3) { 3 } else { 2 };
+    // a third of the hunts are long chains: one or two tasks with many constructions each (a multi-slot table needs
+    // several entries, evictions and a particular order of them before it can go wrong)
+    let long_chain = hunt && p.chance(1, 3);
+    let n_tasks = if long_chain { 1 + p.below(2) as usize } else if p.chance(1, 3) { 3 } else { 2 };
     let faults_on = !hunt && p.chance(1, 3);
     let sw = Swarm {
         fault_err: faults_on && p.chance(1, 2),
@@ -798,7 +801,7 @@ fn tasks_run(seed: u64, run: u64, p: &mut Prng, menu: &[Box<dyn TyObj>]) -> RunS
     let (mut br, _) = gen_rsize(p, bw, bdb, &shape_w);
     if hunt && p.chance(4, 5) {
         // sizes that fit a machine word (what a word-sized memo can hold), rarely a power of two
-        let bits = if p.chance(3, 5) { 2 + p.below(31) } else { 2 + p.below(63) } as usize;
+        let bits = match p.below(10) { 0..=4 => 2 + p.below(31), 5..=7 => 2 + p.below(63), _ => 65 + p.below(63) } as usize;
         let bits = bits.min(bw * 8 - 1);
         let mut v = p.bytes(bw);
         for (i, x) in v.iter_mut().enumerate() {
@@ -815,6 +818,9 @@ fn tasks_run(seed: u64, run: u64, p: &mut Prng, menu: &[Box<dyn TyObj>]) -> RunS
     }
     let (blow, bhigh) = place(p, bw, bdb, bsigned, &br);
     let mut tasks = Vec::new();
+    // every range built so far in this run (in the base type's width): a new range is derived from any of them, so
+    // that chains like (a, h1) -> (a, h2) -> (b, h2) arise (what a multi-slot table needs to go wrong)
+    let mut pool: Vec<(Vec<u8>, Vec<u8>)> = vec![(blow.clone(), bhigh.clone())];
     for ti in 0..n_tasks {
         let tyi = if ti == 0 {
             t0
@@ -838,7 +844,7 @@ fn tasks_run(seed: u64, run: u64, p: &mut Prng, menu: &[Box<dyn TyObj>]) -> RunS
         let ty = &menu[tyi];
         let (w, db, signed) = (ty.bytes(), ty.digit_bytes(), ty.signed());
         let mut ops = Vec::new();
-        for _ in 0..1 + p.below(3) {
+        for _ in 0..if long_chain { 6 + p.below(6) } else { 1 + p.below(if hunt { 4 } else { 3 }) } {
             let dynamic = p.below(4) < sw.dyn_rate;
             let kind_sel = if hunt { hunt_kind } else { p.weighted(&[8, 4, 4, 2, 2]) };
             if kind_sel == 3 {
@@ -853,10 +859,23 @@ fn tasks_run(seed: u64, run: u64, p: &mut Prng, menu: &[Box<dyn TyObj>]) -> RunS
             }
             // bounds: related to the base range (so that state keyed on part of the arguments collides), or fresh
             let (low, high_incl, shape) = if hunt || p.chance(3, 5) {
-                let mut lo = refint::resize(&blow, w, bsigned);
-                let mut hi = refint::resize(&bhigh, w, bsigned);
-                match if hunt { [0u64, 0, 0, 4, 4, 6, 6, 1, 3, 5][p.below(10) as usize] } else { p.below(7) } {
+                let (plow, phigh) = pool[p.below(pool.len() as u64) as usize].clone();
+                let mut lo = refint::resize(&plow, w, bsigned);
+                let mut hi = refint::resize(&phigh, w, bsigned);
+                match if hunt { [0u64, 0, 0, 4, 4, 6, 6, 1, 3, 5, 7, 7][p.below(12) as usize] } else { p.below(8) } {
                     0 => {}
+                    7 => {
+                        // the low part of this size under the high part of another range's size (split at an 8-byte or
+                        // digit boundary): a one-word size and a two-word size that share a word
+                        let (olow, ohigh) = pool[p.below(pool.len() as u64) as usize].clone();
+                        let osz = refint::sub(&refint::resize(&ohigh, w, bsigned), &refint::resize(&olow, w, bsigned));
+                        let mut sz = refint::sub(&hi, &lo);
+                        let cut = if w > 8 && p.chance(2, 3) { 8 } else { (1 + p.below((w / db).max(2) as u64 - 1) as usize) * db };
+                        for i in cut.min(w)..w {
+                            sz[i] = if p.chance(1, 4) { 0 } else { osz[i] };
+                        }
+                        hi = refint::add(&lo, &sz);
+                    }
                     6 => {
                         // the size XOR-ed with the difference of the two widths at a byte position: what collides when a
                         // key is packed as `size ^ (BITS << s)` or `(BITS << s) | size`
@@ -900,6 +919,9 @@ fn tasks_run(seed: u64, run: u64, p: &mut Prng, menu: &[Box<dyn TyObj>]) -> RunS
                 if refint::cmp(signed, &lo, &hi) == Ordering::Greater {
                     std::mem::swap(&mut lo, &mut hi);
                 }
+                if pool.len() < 12 {
+                    pool.push((refint::resize(&lo, bw, signed), refint::resize(&hi, bw, signed)));
+                }
                 (lo, hi, 14u8)
             } else {
                 let (r, shape) = gen_rsize(p, w, db, &shape_w);
@@ -908,7 +930,7 @@ fn tasks_run(seed: u64, run: u64, p: &mut Prng, menu: &[Box<dyn TyObj>]) -> RunS
             };
             let rr = refint::range_size(&low, &high_incl);
             let (low, high, inclusive) = api_bounds(p, w, signed, low, high_incl);
-            let ncalls = if hunt { 2 + p.below(4) } else { 1 + p.below(4) };
+            let ncalls = if long_chain { 1 + p.below(2) } else if hunt { 2 + p.below(4) } else { 1 + p.below(4) };
             let calls: Vec<Vec<Plan>> = (0..ncalls).map(|_| range_call_plan(p, &sw, w, db, rr.as_ref())).collect();
             let kind = match kind_sel {
                 0 => OpKind::Uniform { low, high, inclusive, ctor: [Ctor::Val, Ctor::Ref, Ctor::FromRange, Ctor::Sampler][p.below(4) as usize] },
